@@ -93,7 +93,7 @@ Verdict(e) ==
     [] op = "fmt" /\ e.kind = "debug" -> DebugOK(WArg(e.a), e.r)
     [] op = "fmt" -> FormatEventOK(e, IF "N" \in DOMAIN e THEN Arg(e.a) ELSE DZero, WArg(e.a), cfg)
     [] op = "from_float" -> FromFloatOK(ZOf(e.bits).m, e.w, e.r)
-    [] op = "to_float" -> ToFloatOK(Arg(e.a), e.r)
+    [] op = "to_float" -> ToFloatWOK(WArg(e.a), e.r)
     [] op = "float_roundtrip" -> IF e.form = "to_f32" THEN Soft(FloatRoundTripOK(ZOf(e.bits).m, e.w, e.r))     \* to_f32 is not promised by C14
                                  ELSE FloatRoundTripOK(ZOf(e.bits).m, e.w, e.r)
     [] op = "to_int" -> ToIntOK(e.form, Arg(e.a), e.r)
